@@ -167,6 +167,10 @@ var fixedLines = []string{
 	"", "", " ", "\t", "a", "b", "abc", "---", "---", "--- ", " ---", "----", "---moredata", "--", "-",
 	"[]", "[", "]", "a\rb", "\rstart", "x\ty", "é", "日本", "\xff", "\xfe", "\x80", "a\xffb", "\xc3", "caf\xe9 au lait", "caf\uFFFD au lait", "\uFFFD", "\x00", "\v", "\f",
 	"\ufeff", "\ufeffbom first", "{", "}", "key: value", "- item", "#comment", "  indented", "trailing  ", "\"quoted\"", "%d %s %%",
+	// (round 7) text about line ends rather than line ends, terminal sequences, invisible characters, dashed lines that are not
+	// the terminator, percent signs, the library's own marker texts
+	"tr -d \\r", "D:\\work\\r", "\\n", "\x1b[31mred\x1b[0m", "\x1b[1mbold", "10\u00a0km", "1\u202f000", "a\u200db", "\u200fרשימה", "------", "--- FAIL: TestA (0.00s)",
+	"|---|---|", "--- # second document", "100% done", "my%20report.pdf", "<Any value>", "<Type:float64>", "\"<Type:string>\"",
 }
 
 func genLine(t *rapid.T, o textOpts) string {
